@@ -44,14 +44,20 @@ func buildSweeps(thorough bool) []sweep {
 	collide := []bodySpec{{0, io.EOF}, {0, errInjected}, {1, io.EOF}, {3, io.EOF}, {2, errInjected}}
 	collideNil := append([]bodySpec{{-1, io.EOF}}, collide...)
 	declBodies := append(append([]int{}, small...), 4097)
+	// content axis: body byte 0 (the byte a probe peeks at) - pattern byte 0x00, a letter, LF, CR, blank, 0xFF
+	firstAll := []int{-1, 'a', '\n', '\r', ' ', 0xFF}
+	firstOthers := firstAll[1:]
 	if thorough {
 		return []sweep{
 			{name: "small-bodies/undeclared/every-chunking", bodies: small, modes: undeclared, maxLen: 5, bound: -1, zeroBudget: 2},
+			{name: "small-bodies/undeclared/first-byte", bodies: []int{1, 2, 3}, modes: undeclared, maxLen: 5, bound: 2, zeroBudget: 1, firsts: firstOthers},
+			{name: "buffer-sized-bodies/undeclared/first-byte", bodies: big, modes: undeclared, maxLen: 4, bound: 1, zeroBudget: 1, firsts: firstOthers},
 			{name: "two-requests/undeclared", nreq: 2, multi: collideNil, maxLen: 5, bound: 1, zeroBudget: 1},
 			{name: "three-requests/undeclared", nreq: 3, multi: collide[:4], maxLen: 4, bound: 1, zeroBudget: 0},
 			{name: "buffer-sized-bodies/undeclared", bodies: big, modes: undeclared, maxLen: 5, bound: 2, zeroBudget: 1},
 			{name: "declared-length", bodies: declBodies, modes: declared, maxLen: 5, bound: 1, zeroBudget: 1},
 			{name: "net/http-delivered", bodies: []int{0, 1, 2, 3, 4096, 4097}, modes: wire, maxLen: 5, bound: 1, zeroBudget: 1},
+			{name: "net/http-delivered/first-byte", bodies: []int{1, 3, 4097}, modes: wire[:3], maxLen: 4, bound: 1, zeroBudget: 1, firsts: firstOthers},
 			{name: "extended-read-sizes/undeclared", bodies: []int{0, 1, 3, 4095, 4096, 4097, 8193, 12289}, modes: undeclared, minLen: 1, maxLen: 4, extended: true, bound: 1, zeroBudget: 1},
 			{name: "small-bodies/undeclared/len6", bodies: small, modes: undeclared, minLen: 6, maxLen: 6, bound: 2, zeroBudget: 1},
 			{name: "small-bodies/undeclared/len7", bodies: small, modes: undeclared[1:], minLen: 7, maxLen: 7, bound: 1, zeroBudget: 1},
@@ -59,10 +65,11 @@ func buildSweeps(thorough bool) []sweep {
 	}
 	return []sweep{
 		{name: "small-bodies/undeclared", bodies: small, modes: undeclared, maxLen: 5, bound: 2, zeroBudget: 1},
+		{name: "small-bodies/undeclared/first-byte", bodies: []int{1, 2, 3}, modes: undeclared, maxLen: 4, bound: 1, zeroBudget: 1, firsts: firstOthers},
 		{name: "two-requests/undeclared", nreq: 2, multi: collide, maxLen: 4, bound: 1, zeroBudget: 1},
-		{name: "buffer-sized-bodies/undeclared", bodies: big[1:], modes: undeclared, maxLen: 4, bound: 1, zeroBudget: 1},
+		{name: "buffer-sized-bodies/undeclared", bodies: big[1:], modes: undeclared, maxLen: 4, bound: 1, zeroBudget: 1, firsts: firstAll},
 		{name: "declared-length", bodies: declBodies, modes: declared, maxLen: 3, bound: 1, zeroBudget: 1},
-		{name: "net/http-delivered", bodies: []int{0, 1, 3, 4097}, modes: wire, maxLen: 4, bound: 1, zeroBudget: 1},
+		{name: "net/http-delivered", bodies: []int{0, 1, 3, 4097}, modes: wire, maxLen: 4, bound: 1, zeroBudget: 1, firsts: firstAll},
 	}
 }
 
@@ -108,7 +115,14 @@ func buildPlans(thorough bool) []*plan {
 						if isWire(md) && !wireOK(md, bl, t) {
 							continue
 						}
-						p.cfgs = append(p.cfgs, []*config{newConfig(cfgID, bl, t, md, 0)})
+						firsts := sw.firsts
+						if bl < 1 || len(firsts) == 0 {
+							firsts = []int{-1}
+						}
+						for _, fb := range firsts {
+							cfgID++
+							p.cfgs = append(p.cfgs, []*config{newConfigFirst(cfgID, bl, t, md, 0, fb)})
+						}
 					}
 				}
 			}
@@ -608,6 +622,9 @@ func main() {
 			info["terminals"] = []string{"EOF", "ERR(sticky, after the last byte)"}
 			info["modes"] = sw.modes
 			info["extended_alphabet"] = sw.extended
+			if len(sw.firsts) > 0 {
+				info["first_body_byte(-1 = pattern byte 0x00), bodies of length >= 1"] = sw.firsts
+			}
 		}
 		sweepInfo[sw.name] = info
 		for _, c := range mg.samples[si] {
@@ -625,6 +642,7 @@ func main() {
 			r.Outcome(outcomeNames[i], v)
 		}
 	}
+	r.Set("body_content", "byte i = i mod 251 (B, C: shifted by 83, 166); content axis on byte 0, the byte a probe peeks at: {0x00, 'a', LF, CR, space, 0xFF} where a sweep lists first_body_byte")
 	r.Set("operations", opNames[:])
 	r.Set("epilogue", "after every history, for every request in turn: Read(4096) until the terminal condition, Read(1), Close, Read(1), Close, Read(4096) - all judged by the same oracle")
 	r.Set("stream_choice_point", "every Read the underlying stream receives before it has delivered its terminal: full | 1 byte | all but one | all + terminal together | (0,nil); every Close it receives: nil | error (the stream counts as closed either way)")
